@@ -68,8 +68,12 @@ const (
 	mutDefvarTwice              // Compile evaluates a defvar initial form twice
 	mutEvalMutatesData          // eval compiles the sub-forms of its (data) argument in place
 	mutPatchKeepsForms          // defun after a forward reference does not patch the placeholder: old call sites stay undefined
-	mutCompileDropsMain         // Compile then Eval returns the value of the last definition, main is skipped
+	mutCompileDropsMain         // compiled code, evaluated again, skips the non-definition forms
+	mutSplitLambda              // a function that was forward-referenced has two lambda objects: callers created after its first definition never see a redefinition
 )
+
+var allMutations = []mutation{mutFwdDropArgs, mutFwdDropClosure, mutEarlyBind, mutCacheArgValue, mutDefvarTwice, mutEvalMutatesData,
+	mutPatchKeepsForms, mutCompileDropsMain, mutSplitLambda}
 
 var mutNames = map[mutation]string{
 	mutFwdDropArgs:      "forward-referenced call drops its arguments",
@@ -80,6 +84,7 @@ var mutNames = map[mutation]string{
 	mutEvalMutatesData:  "eval rewrites quoted data in place",
 	mutPatchKeepsForms:  "defun does not patch the forward-reference placeholder",
 	mutCompileDropsMain: "compiled code skips re-evaluation of non-definition forms after the first run",
+	mutSplitLambda:      "redefinition of a once-forward-referenced function is not seen by callers created after its first definition",
 }
 
 // fwdEdge is a call site that was defined / compiled before its callee existed.
@@ -93,6 +98,7 @@ type refMachine struct {
 	globals map[sym]*val
 	slots   map[int][]val
 	trace   []string
+	outs    []string
 	fuel    int
 	mut     mutation
 
@@ -239,6 +245,7 @@ var defHeads = map[sym]bool{"defun": true, "defmacro": true, "defvar": true, "de
 
 func (m *refMachine) run(f func() val) (o obs) {
 	m.trace = nil
+	m.outs = nil
 	m.fuel = 20000
 	defer func() {
 		if rec := recover(); rec != nil {
@@ -246,11 +253,11 @@ func (m *refMachine) run(f func() val) (o obs) {
 			if !ok {
 				panic(rec)
 			}
-			o = obs{err: errOf(re), trace: m.trace}
+			o = obs{err: errOf(re), trace: m.trace, outs: m.outs}
 		}
 	}()
 	v := f()
-	return obs{val: refShow(v), trace: m.trace}
+	return obs{val: refShow(v), trace: m.trace, outs: m.outs}
 }
 
 func (m *refMachine) do(st step) (o obs, observed bool) {
@@ -261,8 +268,8 @@ func (m *refMachine) do(st step) (o obs, observed bool) {
 		delete(m.ranCompiled, st.slot)
 		return obs{}, false
 	case 'C':
-		o = m.run(func() val { m.compile(st.slot); return nil })
-		return o, o.err != nil
+		o = m.run(func() val { m.compile(st.slot); return sym("compiled") })
+		return o, true
 	case 'E':
 		return m.run(func() val { return m.evalSlot(st.slot) }), true
 	case 'L':
@@ -351,7 +358,7 @@ var specialForms = map[sym]bool{"quote": true, "function": true, "if": true, "le
 
 var builtins = map[sym]bool{"+": true, "-": true, "*": true, "<": true, ">": true, "=": true, "list": true, "first": true,
 	"second": true, "third": true, "car": true, "cdr": true, "listp": true, "not": true, "null": true, "tr": true, "eval": true,
-	"funcall": true, "apply": true, "mapcar": true, "1+": true, "1-": true, "length": true, "cons": true, "eq": true}
+	"funcall": true, "apply": true, "c08-out": true, "mapcar": true, "1+": true, "1-": true, "length": true, "cons": true, "eq": true}
 
 func (m *refMachine) eval(v val, e *env) val {
 	m.fuel--
@@ -552,6 +559,11 @@ func (m *refMachine) evalList(l *lst, e *env) val {
 	if m.mut == mutPatchKeepsForms && m.fwdSites[l] {
 		fn = nil
 	}
+	if m.mut == mutSplitLambda && m.fwdNames[head] && !m.fwdSites[l] {
+		if b, has := m.boundAt[l]; has && b != nil {
+			fn = b
+		}
+	}
 	if fn == nil {
 		m.fail("undefined-function", "Function %s is not defined.", head)
 	}
@@ -691,6 +703,9 @@ func (m *refMachine) builtin(head sym, l *lst, e *env) val {
 	}
 	argv := m.evalArgs(l, e)
 	switch head {
+	case "c08-out":
+		m.outs = append(m.outs, refShow(argv[0]))
+		return argv[0]
 	case "+":
 		s := 0
 		for _, a := range argv {
@@ -810,8 +825,16 @@ func (m *refMachine) noteSites(v val, pos string) {
 	}
 	head, ok := l.items[0].(sym)
 	if !ok {
-		for _, it := range l.items {
-			m.noteSites(it, "special")
+		// ((lambda (..) body) args): the body is always evaluated, a strict position
+		if hl, ok := l.items[0].(*lst); ok && 2 < len(hl.items) {
+			if hs, _ := hl.items[0].(sym); hs == "lambda" {
+				for _, it := range hl.items[2:] {
+					m.noteSites(it, pos)
+				}
+			}
+		}
+		for _, it := range l.items[1:] {
+			m.noteSites(it, pos)
 		}
 		return
 	}
@@ -843,6 +866,13 @@ func (m *refMachine) noteSites(v val, pos string) {
 			for _, it := range listItems(cl) {
 				m.noteSites(it, "special")
 			}
+		}
+		return
+	}
+	if head == "progn" {
+		// progn evaluates all its arguments in order, like a function: transparent for the position
+		for _, it := range l.items[1:] {
+			m.noteSites(it, pos)
 		}
 		return
 	}
